@@ -24,7 +24,7 @@ EXTENDS Naturals, Integers, Sequences, FiniteSets
 
 All == -1       \* shrink(None)
 
-VARIABLES cfg,        \* [limit |-> initial limit]
+VARIABLES cfg,        \* [limit |-> initial limit, inline |-> coordinator work runs inside the call that queues it]
           limit,      \* value currently returned by currentLimit()
           quitF,      \* Team.quit() has been called
           cq,         \* coordinator queue: items [k |-> kind, a |-> argument]; kind "stop" = coordinator quit
@@ -117,6 +117,13 @@ GrowLoop(S, n, sq) ==
     IF n <= 0 \/ ~CanCreate(S) THEN {S}
     ELSE UNION {GrowLoop(T, n - 1, sq) : T \in Recycle(Create(S), S.nW + 1, sq)}
 
+\* grow(n) in which some createWorker() call raises: the iterations before it are done, the rest is not
+RECURSIVE GrowFail(_, _, _)
+GrowFail(S, n, sq) ==
+    IF n <= 0 \/ ~CanCreate(S) THEN {}
+    ELSE {[S EXCEPT !.sub = Append(@, <<"createfail", 0>>)]}
+         \cup UNION {GrowFail(T, n - 1, sq) : T \in Recycle(Create(S), S.nW + 1, sq)}
+
 Stats == <<Cardinality(idle'), busy', Len(pend')>>
 Obs(e, res, n, raised, sub) == last' = [e |-> e, res |-> res, n |-> n, raised |-> raised, sub |-> sub, st |-> Stats]
 
@@ -177,6 +184,28 @@ CoordStep ==
             /\ shouldQuit' = sq
             /\ Obs("coord", "true", 0, FALSE, T.sub)
     /\ UNCHANGED <<cfg, limit, quitF, nT, accepted, runs, cnt>>
+
+(* createWorker() raises (a thread cannot be started) while the coordinator work runs inside the submitting call:
+   the exception reaches the submitter, so a task submission that fails this way is not an accepted one; the
+   team's bookkeeping is as if the failing creation had not been attempted.  (Trace validation only.) *)
+CoordFail ==
+    /\ cfg.inline /\ cq # <<>> /\ Head(cq).k \in {"task", "grow"}
+    /\ LET it == Head(cq)
+           R  == IF it.k = "task"
+                   THEN (IF Snapshot.idle = {} /\ CanCreate(Snapshot)
+                           THEN {[Snapshot EXCEPT !.sub = << <<"createfail", 0>> >>]} ELSE {})
+                   ELSE GrowFail(Snapshot, it.a, shouldQuit)
+       IN \E T \in R :
+            /\ idle' = T.idle /\ busy' = T.busy /\ pend' = T.pend /\ toShrink' = T.toShrink
+            /\ nW' = T.nW /\ wq' = T.wq /\ wquit' = T.wquit /\ cquit' = T.cquit
+            /\ createOk' = T.cok /\ err' = (err \/ T.err)
+            /\ cq' = Tail(cq) \o T.cq
+            /\ accepted' = IF it.k = "task" THEN accepted \ {it.a} ELSE accepted
+            /\ Obs("coord", "exc", 0, FALSE, T.sub)
+    /\ UNCHANGED <<cfg, limit, quitF, shouldQuit, nT, runs, cnt>>
+
+\* with an inline coordinator no coordinator work is left queued when the operation that queued it returns
+InlineDone == IF cq = <<>> THEN TRUE ELSE Head(cq).k = "stop"
 
 CoordIdle ==       \* perform() on a coordinator with nothing to do
     /\ IF cq = <<>> THEN TRUE ELSE Head(cq).k = "stop"
